@@ -64,7 +64,9 @@ func resolveInmemRoles(c *Ctx) *inmemRoles {
 	}
 	r.svc = impls[0]
 	c.Role("inmem.service", r.svc.Obj().Name(), r.svc.Obj().Pos())
-	r.mutex = c.oneField("inmem.mutex", r.svc, func(f *types.Var) bool { return ir.IsNamed(f.Type(), "sync", "Mutex") })
+	r.mutex = c.oneField("inmem.mutex", r.svc, func(f *types.Var) bool {
+		return ir.IsNamed(f.Type(), "sync", "Mutex") || ir.IsNamed(f.Type(), "sync", "RWMutex")
+	})
 	r.recs = c.oneField("inmem.records", r.svc, func(f *types.Var) bool {
 		m, ok := f.Type().Underlying().(*types.Map)
 		return ok && namedOf(m.Elem()) == r.recordT
@@ -130,7 +132,18 @@ func resolveInmemRoles(c *Ctx) *inmemRoles {
 	return r
 }
 
+// mutexPathHeld: the service mutex is held exclusively or shared before in.
 func (r *inmemRoles) mutexPathHeld(ls *ir.Lockset, in ssa.Instruction) bool {
+	for p := range ls.Before[in] {
+		if strings.HasSuffix(p, "."+r.mutex.Name()) || strings.HasSuffix(p, "."+r.mutex.Name()+ir.ReadLockSuffix) {
+			return true
+		}
+	}
+	return false
+}
+
+// mutexExclusive: the service mutex is held exclusively before in.
+func (r *inmemRoles) mutexExclusive(ls *ir.Lockset, in ssa.Instruction) bool {
 	for p := range ls.Before[in] {
 		if strings.HasSuffix(p, "."+r.mutex.Name()) {
 			return true
@@ -139,9 +152,47 @@ func (r *inmemRoles) mutexPathHeld(ls *ir.Lockset, in ssa.Instruction) bool {
 	return false
 }
 
+// mutates reports whether in writes a table or closes a waiter channel, directly or through a helper.
+func (r *inmemRoles) mutates(in ssa.Instruction) bool {
+	direct := func(x ssa.Instruction) bool {
+		if r.recsUpdate(x) != nil || r.recsDelete(x) != nil {
+			return true
+		}
+		if mu, ok := x.(*ssa.MapUpdate); ok {
+			if _, isW := loadOfField(mu.Map, r.waiters); isW {
+				return true
+			}
+		}
+		if cc := builtinCall(x, "delete"); cc != nil {
+			if _, isW := loadOfField(cc.Args[0], r.waiters); isW {
+				return true
+			}
+		}
+		if cc := builtinCall(x, "close"); cc != nil {
+			return true
+		}
+		if _, ok := isFieldDelta(x, r.wCount, 1); ok {
+			return true
+		}
+		if _, ok := isFieldDelta(x, r.wCount, -1); ok {
+			return true
+		}
+		return false
+	}
+	if direct(in) {
+		return true
+	}
+	if call, ok := in.(*ssa.Call); ok {
+		if cal := ir.StaticCallee(call); cal != nil && r.isPrivateHelper(cal) && !r.locking[cal] {
+			return ir.MayReach(cal, direct, 2)
+		}
+	}
+	return false
+}
+
 func (r *inmemRoles) isLock(in ssa.Instruction) bool {
 	p, acq, _ := ir.LockOp(in)
-	return acq && strings.HasSuffix(p, "."+r.mutex.Name())
+	return acq && (strings.HasSuffix(p, "."+r.mutex.Name()) || strings.HasSuffix(p, "."+r.mutex.Name()+ir.ReadLockSuffix))
 }
 
 func (r *inmemRoles) isUnlock(in ssa.Instruction) bool {
@@ -149,7 +200,7 @@ func (r *inmemRoles) isUnlock(in ssa.Instruction) bool {
 		return false
 	}
 	p, _, rel := ir.LockOp(in)
-	return rel && strings.HasSuffix(p, "."+r.mutex.Name())
+	return rel && (strings.HasSuffix(p, "."+r.mutex.Name()) || strings.HasSuffix(p, "."+r.mutex.Name()+ir.ReadLockSuffix))
 }
 
 func (r *inmemRoles) recsLookup(in ssa.Instruction) *ssa.Lookup {
@@ -232,6 +283,9 @@ func (c *Ctx) inmemCriticalSections(r *inmemRoles, rule string) {
 				if cal := ir.StaticCallee(call); cal != nil && r.isPrivateHelper(cal) && !r.locking[cal] && touchesTables(cal, r) {
 					c.Decide(rule, fn, "table helper "+cal.Name()+" called under the mutex", in, r.mutexPathHeld(ls, in), "a helper that reads or writes the tables is called without the service mutex")
 				}
+			}
+			if r.mutates(in) && r.mutexPathHeld(ls, in) {
+				c.Decide(rule, fn, "tables mutated under the exclusive lock", in, r.mutexExclusive(ls, in), "a table is modified (store, delete, purge of an expired record, waiter notification) while the mutex is only held shared (RLock): two readers purge concurrently - concurrent map writes, double close")
 			}
 		})
 		if name == "WaitForVersionChange" {
@@ -1013,4 +1067,25 @@ func containsInstr(s []ssa.Instruction, x ssa.Instruction) bool {
 		}
 	}
 	return false
+}
+
+// inmemGlobPlain is C03.R8: ListKeys compiles the pattern without separator runes.
+func (c *Ctx) inmemGlobPlain(r *inmemRoles, rule string) {
+	fn := r.storage["ListKeys"]
+	n := 0
+	ir.Instrs(fn, func(in ssa.Instruction) {
+		call, ok := in.(*ssa.Call)
+		if !ok || !strings.HasSuffix(ir.CalleeFullName(call), "gobwas/glob.Compile") {
+			return
+		}
+		n++
+		okPlain := len(call.Call.Args) < 2 || ir.IsNilConst(call.Call.Args[1])
+		c.Decide(rule, fn, "glob compiled without separators", in, okPlain, "the in-memory ListKeys compiles the pattern with separator runes: * and ? no longer match across them, keys that the contract (and the redis backend) list are omitted")
+		// the pattern compiled is the caller's pattern
+		okArg := len(fn.Params) >= 3 && ir.Resolve(call.Call.Args[0]) == ssa.Value(fn.Params[2])
+		c.Decide(rule, fn, "glob compiled from the caller's pattern", in, okArg, "ListKeys does not match against the pattern it was given")
+	})
+	if n == 0 {
+		c.Decide(rule, fn, "ListKeys matches with the glob library", nil, false, "ListKeys does not compile the pattern with the glob library the contract names")
+	}
 }
